@@ -28,7 +28,8 @@ Judge ==
         r == IF c.op = "neg" THEN Negate(ValOf(c.a)) ELSE Arith(c.op, ValOf(c.a), ValOf(c.b)) IN
     IF ~r.ok /\ r.oom THEN PrintT("SKIP " \o ToJson([id |-> c.id]))
     ELSE IF r.ok THEN
-        (c.obs.status = "ok" /\ SameValue(r.v, c.obs.val))
-        \/ PrintT("DISAGREE " \o ToJson([id |-> c.id, expected |-> Show(r.v), why |-> "value"]))
+        \* an operator only reads its operands: the slots they were read from hold what they held before
+        (c.obs.status = "ok" /\ SameValue(r.v, c.obs.val) /\ c.obs.intact)
+        \/ PrintT("DISAGREE " \o ToJson([id |-> c.id, expected |-> Show(r.v), why |-> IF c.obs.status = "ok" /\ ~c.obs.intact THEN "operand slot changed" ELSE "value"]))
     ELSE c.obs.status = "fail" \/ PrintT("DISAGREE " \o ToJson([id |-> c.id, expected |-> [fail |-> r.why], why |-> "must fail"]))
 =============================================================================
